@@ -31,7 +31,7 @@ def streams(tier, seed):
         return [dict(tag="main", count=40, seed=seed, extra={"runs": "z3:0,4;cvc5:0,2;pushpop:0", "jobs": 8, "full-bits": 4, "cvc5-bits": 4, "small-share": 75})]
     out = []
     for k in range(3):
-        out.append(dict(tag="main%d" % k, count=40, seed=seed * 1000 + k,
+        out.append(dict(tag="main%d" % k, count=70, seed=seed * 1000 + k,
                         extra={"runs": "z3:0,1,2,3,4;cvc5:0,1,2;pushpop:0,1", "jobs": 10, "full-bits": 4, "cvc5-bits": 4, "small-share": 70}))
     return out
 
